@@ -12,7 +12,7 @@ import (
 func init() {
 	register("P-COMMENT", "comment.render: text starting with // or /* passes through raw; otherwise line style (\"// \") only for text without a newline and block style (\"/*\\n\" … \"\\n\" \"*/\") exactly for text with one; nothing else is written", 8, rulePXComment)
 	register("P-TAG", "tag.render: each pair is written as key:\"quoted value\" (value through %q / strconv.Quote, key verbatim) for the value looked up under that key, pairs joined by one space; the whole is back-quoted only under strconv.CanBackquote and otherwise quoted by strconv.Quote", 6, rulePXTag)
-	register("P-DICT", "Dict: a pair is collected iff key and value are non-nil and non-null, with its own key and value; the emission loop writes key, \":\", value of the same pair, and \",\\n\" / a leading \"\\n\" exactly when there are several pairs; Dict.isNull is true iff no pair has both sides non-null", 12, ruleDict)
+	register("P-DICT", "Dict: a pair is collected iff key and value are non-nil and non-null, with its own key and value; the emission loop writes key, \":\", value of the same pair, and \",\\n\" / a leading \"\\n\" exactly when there are several pairs; Dict.isNull is true iff no pair has both sides non-null", 7, rulePXDict)
 }
 
 func hasAtom(w Facts, pol bool, pred func(string) bool) bool {
